@@ -58,6 +58,55 @@ func checkC15(c *Ctx) {
 		}
 	}
 
+	// ---- C15-REBUILD: a template's containers are rebuilt on every evaluation, never pushed as the template's own object
+	if f := c.mustFn("C15-REBUILD", "Generator.GenerateSyntaxQuote"); f != nil {
+		pushT := c.named("PushInstr")
+		n := 0
+		if pushT != nil && len(f.Params) >= 2 {
+			eachInstr(f, func(b *ssa.BasicBlock, i int, in ssa.Instruction) {
+				// a PushInstr value built from an interface-typed expression
+				mi, ok := in.(*ssa.MakeInterface)
+				if !ok {
+					return
+				}
+				nm, ok := mi.X.Type().(*types.Named)
+				if !ok || nm != pushT {
+					return
+				}
+				// which expression does it push? the store into the composite's only field
+				var pushed ssa.Value
+				if ld, ok := mi.X.(*ssa.UnOp); ok {
+					if al, ok := ld.X.(*ssa.Alloc); ok {
+						for _, ref := range *al.Referrers() {
+							if fa, ok := ref.(*ssa.FieldAddr); ok {
+								for _, r2 := range *fa.Referrers() {
+									if st, ok := r2.(*ssa.Store); ok && st.Addr == ssa.Value(fa) {
+										pushed = st.Val
+									}
+								}
+							}
+						}
+					}
+				}
+				if pushed == nil || !types.IsInterface(pushed.Type()) {
+					return
+				}
+				n++
+				// the pushed value is the (sub)template itself: must be on the path where it is none of the containers
+				notContainer := func(tname string) bool {
+					return excludesType(b, pushed, tname, 0)
+				}
+				okAtoms := notContainer("*SexpArray") && notContainer("*SexpHash")
+				c.check(okAtoms, "C15-REBUILD", "Generator.GenerateSyntaxQuote", "template object pushed only when it is not a container", mi.Pos(),
+					"the template itself is pushed only after the tests for array and hash failed: containers are rebuilt element by element",
+					"a template (or sub-template) is emitted as one push of the template's own object without excluding arrays and hashes: every evaluation returns the same mutable object, so changing one result changes the template and all later results, which writing the form by hand would not")
+			})
+		}
+		if n == 0 {
+			c.undecided("C15-REBUILD", "Generator.GenerateSyntaxQuote", "template object pushed only when it is not a container", f.Pos(), "no push of a template expression found")
+		}
+	}
+
 	// ---- C15-DUP
 	apply := c.mustFn("C15-DUP", "Zlisp.Apply")
 	dup := c.mustFn("C15-DUP", "Zlisp.Duplicate")
@@ -225,4 +274,38 @@ func checkC15(c *Ctx) {
 		}
 	}
 	_ = types.Typ
+}
+
+// excludesType: on every path into block b, value v is known not to have the
+// dynamic type tname: the comma-ok assertion v.(tname) failed, or an assertion
+// of v to a different concrete type succeeded.
+func excludesType(b *ssa.BasicBlock, v ssa.Value, tname string, depth int) bool {
+	if depth > 12 {
+		return false
+	}
+	if len(b.Preds) == 0 {
+		return false
+	}
+	for _, p := range b.Preds {
+		okEdge := false
+		if cond, t, e := condBranch(p); cond != nil {
+			if ex, ok := cond.(*ssa.Extract); ok && ex.Index == 1 {
+				if ta, ok := ex.Tuple.(*ssa.TypeAssert); ok && ta.X == v {
+					same := typeShort(ta.AssertedType) == tname
+					if same && e == b && t != b {
+						okEdge = true // the test for tname failed
+					}
+					if !same && t == b && e != b {
+						if _, isIface := ta.AssertedType.Underlying().(*types.Interface); !isIface {
+							okEdge = true // v is of another concrete type
+						}
+					}
+				}
+			}
+		}
+		if !okEdge && !excludesType(p, v, tname, depth+1) {
+			return false
+		}
+	}
+	return true
 }
